@@ -534,7 +534,7 @@ impl Driver for C08 {
         "C08"
     }
     fn units(&self, tier: Tier) -> usize {
-        tier.pick(16000, 160000)
+        tier.pick(16000, 1200000)
     }
     fn run_unit(&self, ctx: &Ctx, out: &mut UnitOut, _start: usize, only: Option<usize>) {
         let mut rng = unit_rng(ctx, "C08", out.unit);
